@@ -631,4 +631,43 @@ theorem mapdf_labels_counterexample :
     mapDfW (fun x => if x = 1 then none else some (10 * x)) [0, 1, 2] true = some [(0, 0), (2, 20)] := by
   decide
 
+/-! ### The in-place swap of `map_neuronlist` (tie to the source)
+
+`Gen.NblastJobs.swapFacts` is the `if` guarding `nl.neurons = res.neurons` as it stands in the source. -/
+
+/-- The swap happens exactly when `inplace` is true — for serial and parallel runs alike — and otherwise the
+result list is returned: no combination of the flags leaves the input list untouched *and* returned. -/
+theorem map_neuronlist_swap_in_source :
+    Navis.Gen.NblastJobs.swapFacts.swapAssignsResultNeurons = true ∧
+    Navis.Gen.NblastJobs.swapFacts.elseReturnsResult = true ∧
+    ∀ inplace parallel, swapOf Navis.Gen.NblastJobs.swapFacts inplace parallel = some inplace := by
+  refine ⟨rfl, rfl, ?_⟩
+  intro i p; cases i <;> cases p <;> rfl
+
+/-- Hence, for every input list and every processor result `res` (the survivors' results in list order, see
+`zipW_omit_failures`): the returned list holds exactly `res`; it *is* the input list iff `inplace`; the input
+list afterwards holds `res` iff `inplace` and is unchanged otherwise — whatever `parallel` is. -/
+theorem map_neuronlist_swap_outcome {ν} (inplace parallel : Bool) (nl res : List ν) :
+    swapOutcome (swapOf Navis.Gen.NblastJobs.swapFacts inplace parallel) nl res =
+      (inplace, res, if inplace then res else nl) := by
+  rw [map_neuronlist_swap_in_source.2.2 inplace parallel]
+  cases inplace <;> rfl
+
+/-- Serial and parallel runs end in the same observable state. -/
+theorem map_neuronlist_swap_serial_eq_parallel {ν} (inplace : Bool) (nl res : List ν) :
+    swapOutcome (swapOf Navis.Gen.NblastJobs.swapFacts inplace false) nl res =
+    swapOutcome (swapOf Navis.Gen.NblastJobs.swapFacts inplace true) nl res := by
+  rw [map_neuronlist_swap_outcome, map_neuronlist_swap_outcome]
+
+/-- The plan computed by the wrapper model and the extracted swap test agree. -/
+theorem map_neuronlist_plan_swap {β} (cfg : MapCfg) (n nargs : Nat) (kwargs : List (String × Val β)) (parallel : Bool)
+    (inplaceKw omitKw : Option Bool) (plan : MapPlan)
+    (_h : mapNeuronlist cfg n nargs kwargs parallel inplaceKw omitKw = .ok plan) :
+    swapOf Navis.Gen.NblastJobs.swapFacts plan.swapInplace parallel = some plan.swapInplace :=
+  map_neuronlist_swap_in_source.2.2 _ _
+
+/-- What a guard `inplace and parallel` / `elif not inplace` would do to a serial in-place run: neither branch. -/
+example : swapOf ⟨.and .inplace .parallel, some (.not .inplace), true, true⟩ true false = none := by decide
+example : swapOutcome (none : Option Bool) [1, 2, 3] [1, 3] = (true, [1, 2, 3], [1, 2, 3]) := by decide
+
 end Navis.Props.C09
